@@ -95,6 +95,9 @@ func (t *Tr) expr(e ast.Expr) (string, error) {
 			op = "-"
 		case token.MUL:
 			op = "*"
+		case token.REM:
+			// Go's % truncates toward zero (additive: used by C20 for executor.window)
+			return "(Int.tmod " + a + " " + b + ")", nil
 		default:
 			return "", fmt.Errorf("unsupported operator %s", x.Op)
 		}
